@@ -11,7 +11,7 @@ from graphql import (ExecutionResult, GraphQLError, GraphQLSyntaxError, graphql,
 from graphql.language import Lexer, Source, TokenKind, parse_const_value, parse_schema_coordinate, parse_type, parse_value
 
 from ..gen import mut, src
-from ..gen.doc import DocGen, directive_argument_soup
+from ..gen.doc import DocGen, directive_argument_soup, oneof_literal_soup
 from ..gen.schemas import rich
 from ..worker import srepr
 
@@ -484,11 +484,11 @@ def run_shard(ctx):
         request_case(ctx, rng, k)
     # (B') every executable directive at every kind of position of every operation type, well- and ill-typed arguments
     # (the schema with the experimental directives is not executable through graphql(): validated only, see C12)
-    for i, source in enumerate(directive_argument_soup(rich())):
+    for i, source in enumerate(directive_argument_soup(rich()) + oneof_literal_soup()):
         if not ctx.mine(i):
             continue
-        for variables in ({}, {'v': True}, {'v': 'x'}):
-            if '$v' not in source and variables:
+        for variables in ({}, {'v': True}, {'v': 'x'}, {'v': {}, 'i': None}, {'v': {'byId': 1}, 'i': 2}, {'d': {}}, {'d': [{'nope': 1}]}):
+            if '$' not in source and variables:
                 continue
             ctx.case()
             ctx.count("directive_argument_requests")
